@@ -158,8 +158,7 @@ def work(ctx):
             # and the transcribed reader against the real one (validates the Spec side)
             mine = {o: (ref.get(o) if lt else LT.addr2line_pre310(table, o)) for o in range(0, n, 2)}
             if any(o in real and real[o] != mine[o] for o in mine):
-                ctx.note("reader transcription disagrees with CPython on %r" % (list(table),))
-                ctx.count("spec-reader-disagrees")
+                ctx.tie_break("reader transcription disagrees with CPython on %r" % (list(table),))
 
     # ---- 1. line programs through the transcribed assemblers (the property's own quantifier)
     def programs():
@@ -265,3 +264,56 @@ def work(ctx):
             c2 = call(LM.mapping_to_items, m, lt)
             ctx.case("ser_res ser_citems (mapping_to_items %s %s)" % (g_linemap(m), gbool(lt)), tres(c2, t_citems), "mapping_to_items weird", "malformed")
     ctx.count("programs_total", nprog)
+
+    # ---- 4. the Spec definitions (Coq) against their Python transcriptions (which the oracle
+    #         above compares with the real CPython readers)
+    def g_events(p):
+        return glist(["(%s, %s)" % (gz(b), gz(l)) for b, l in p], "(Z * Z)")
+
+    def t_raw(tab):
+        tab = list(tab)
+        return tlist(range(0, len(tab), 2), lambda i: [tab[i + 1] - 256 if tab[i + 1] >= 128 else tab[i + 1], tab[i]])
+
+    def g_raw(tab):
+        tab = list(tab)
+        return glist(["(%s, %s)" % (gz(tab[i + 1] - 256 if tab[i + 1] >= 128 else tab[i + 1]), gz(tab[i])) for i in range(0, len(tab), 2)], "eitem")
+
+    for _ in range(120 if quick else 1500):
+        k = rng.randint(1, 6)
+        p = [(rng.choice(PROG_B), rng.choice(PROG_L)) for _ in range(k)]
+        for flag in (True, False):
+            tab = LT.asm_pre310(p, flag)
+            ctx.case("ser_eitems (asm_pre310 %s %s 0)" % (gbool(flag), g_events(p)), t_raw(tab), "spec asm_pre310", "spec")
+            o = 2 * rng.randint(0, 600)
+            ctx.case("ser_Z (addr2line %s %s)" % (g_raw(tab), gz(o)), [LT.addr2line_pre310(tab, o)], "spec addr2line", "spec")
+        ranges = []
+        line = 0
+        for (b, l) in p:
+            b = b or 2
+            new = None if l in (128, -129, 1000) else line + l
+            if ranges and ranges[-1][1] == new:
+                ranges[-1] = (ranges[-1][0] + b, new)
+            else:
+                ranges.append((b, new))
+            if new is not None:
+                line = new
+        tab = LT.asm_310(ranges)
+        ctx.case("ser_eitems (asm_310 %s 0)" % glist(["(%s, %s)" % (gz(b), gopt(l, gz, "Z")) for b, l in ranges], "(Z * option Z)"),
+                 t_raw(tab), "spec asm_310", "spec")
+        o = 2 * rng.randint(0, 600)
+        ref = LT.colines_310(tab)
+        want = topt(ref[o], tz) if o in ref else None
+        ctx.case("ser_opt (ser_opt ser_Z) (colines %s %s)" % (g_raw(tab), gz(o)), [0] if o not in ref else [1] + want, "spec colines", "spec")
+
+    # ---- 5. every line table found in real compiled code (nested code objects included)
+    from props import corpus
+    nin = nout = 0
+    for origin, code in corpus.code_objects(ctx.tier, rng):
+        table = code.co_linetable if native_lt else code.co_lnotab
+        n = len(code.co_code)
+        indom = LT.is_asm310_image(table) if native_lt else not any(b % 2 for b in table[0::2])
+        ctx.count("corpus-table-in-domain" if indom else "corpus-table-outside-domain")
+        oracle(table, n, native_lt, "corpus %s:%s" % (origin, code.co_name))
+        if indom and len(table) <= 60 and nin < (150 if quick else 1500):
+            nin += 1
+            stage_cases(list(table), n, native_lt, "corpus")
